@@ -106,6 +106,10 @@ pub struct Scenario {
     /// receiver role: run under RLIMIT_FSIZE (writes beyond this offset fail); honoured by the judges that support it
     #[serde(default)]
     pub fsize_limit: Option<u64>,
+    /// receiver role: the uploading peer does not dally - once it has seen its final block acknowledged its socket is closed
+    /// and further datagrams sent to it are refused (ECONNREFUSED on a connected UDP socket)
+    #[serde(default)]
+    pub peer_leaves: bool,
 }
 
 impl Scenario {
@@ -127,6 +131,7 @@ impl Scenario {
             dally: true,
             pre_existing: false,
             fsize_limit: None,
+            peer_leaves: false,
         }
     }
     pub fn nblocks(&self) -> u64 {
@@ -728,6 +733,7 @@ pub struct SimState {
     pub final_seen: bool,
     verified_upto: usize,
     blk: usize,
+    sends_after_peer_left: u32,
 }
 
 pub struct SimSocket {
@@ -771,6 +777,21 @@ impl Socket for SimSocket {
     fn send(&self, packet: &Packet) -> Result<(), Box<dyn Error>> {
         let bytes = packet.serialize()?;
         let mut st = lock(&self.st);
+        if st.env.sc.peer_leaves {
+            if let Peer::Tx(p) = &st.env.peer {
+                if p.done {
+                    // the datagram was emitted (it counts for the multiplicity predicates) but the peer's port is closed:
+                    // the first such datagram only provokes the ICMP error, every later send on the connected socket fails
+                    let t = tftpd::verif::virtual_now();
+                    st.trace.push(Ev::Tx { t, bytes, disk: None });
+                    st.sends_after_peer_left += 1;
+                    if st.sends_after_peer_left >= 2 {
+                        return Err("simulated ECONNREFUSED: the peer has closed its socket".into());
+                    }
+                    return Ok(());
+                }
+            }
+        }
         let t = tftpd::verif::virtual_now();
         let disk = if bytes.len() >= 2 && bytes[1] == 4 { st.disk_check() } else { None };
         st.trace.push(Ev::Tx {
@@ -893,6 +914,7 @@ pub fn run(sc: &Scenario, dir: &Path) -> SimResult {
         final_seen: false,
         verified_upto: 0,
         blk: sc.blk,
+        sends_after_peer_left: 0,
     }));
     let sock: Box<SimSocket> = Box::new(SimSocket { st: st.clone() });
     let worker = Worker::new(sock, path.clone(), sc.clean, sc.blk, TIMEOUT, sc.ws, sc.repeat);
